@@ -343,6 +343,9 @@ add("c01_filter_pair_promo_b", ["C01"], "thorough",
     "remove_invalid_moves on two promotion candidates by Black (e.g. two pawns capturing onto the same last-rank square): each is tried with its own attack map and kept or dropped on its own verdict, order preserved, board restored",
     ["remove_invalid_moves", "PawnPromotionChessMove::apply", "PawnPromotionChessMove::undo"], STEP_ASSUME, stubs=[NOSPILL, ATTSTUB, APPENDSTUB], module=MG, est_s=600, heavy=True)
 
+add("c13_piece_letters", ["C13"], "quick", "Piece::to_algebraic_str for all six pieces: '', N, B, R, Q, K (piece prefix and '=X' promotion suffix letters)",
+    ["Piece::to_algebraic_str", "ALGEBRAIC_PIECE_STRS"], "all six pieces (the whole domain)", module=AN, est_s=20)
+
 def witness(name, props, module, desc, unwind=8, est_s=60):
     add(name, props, "quick", "vacuity witness: " + desc + "; same set-up as the obligations of this family, ends in assert!(false); must FAIL on exactly that assertion",
         [], "as the obligation harnesses of its family", kind="witness", module=module, unwind=unwind, est_s=est_s)
